@@ -99,6 +99,10 @@ func (r *c06Rig) runAgree(cs *c06Case, c c06Conc, probe bool) (out c06Run) {
 		cleanup()
 		return fail("not-accepted:auth", "the handshake completed but AuthFirstPacket refuses the recorded first packet: %v", aerr)
 	}
+	wantSid := c.Sid
+	if kit.Env("VERIF_C06_CORRUPT", "") == "sid" { // self-test of the binding: a corrupted expectation must show up
+		wantSid ^= 1
+	}
 	row("server ClientInfo: uid=%x method=%q enc=%d sid=%d unordered=%v", ci.UID, ci.ProxyMethod, ci.EncryptionMethod, ci.SessionId, ci.Unordered)
 	switch {
 	case !bytes.Equal(ci.UID, uid):
@@ -107,8 +111,8 @@ func (r *c06Rig) runAgree(cs *c06Case, c c06Conc, probe bool) (out c06Run) {
 		out.Key, out.What = "field:method", fmt.Sprintf("server recovered proxy method %q, client was configured with %q (%d bytes)", ci.ProxyMethod, c.Method, len(c.Method))
 	case ci.EncryptionMethod != auth.EncryptionMethod || ci.EncryptionMethod != c06EncByte[cs.Enc]:
 		out.Key, out.What = "field:enc", fmt.Sprintf("server recovered encryption method %d, client was configured with %q = %d", ci.EncryptionMethod, c.EncName, c06EncByte[cs.Enc])
-	case ci.SessionId != c.Sid:
-		out.Key, out.What = "field:sid", fmt.Sprintf("server recovered session id %#x, client used %#x", ci.SessionId, c.Sid)
+	case ci.SessionId != wantSid:
+		out.Key, out.What = "field:sid", fmt.Sprintf("server recovered session id %#x, client used %#x", ci.SessionId, wantSid)
 	case ci.Unordered != cs.Unord:
 		out.Key, out.What = "field:unordered", fmt.Sprintf("server recovered unordered=%v, client was configured with %v", ci.Unordered, cs.Unord)
 	}
@@ -154,12 +158,6 @@ func (r *c06Rig) runAgree(cs *c06Case, c c06Conc, probe bool) (out c06Run) {
 	return out
 }
 
-// TestVerifC06Warm compiles and links the test binary while TLC is still running (build cache warm-up).
-func TestVerifC06Warm(t *testing.T) {
-	res := kit.NewResult()
-	res.Save(true)
-}
-
 func c06Workers() int {
 	w := runtime.GOMAXPROCS(0)
 	if w > 12 {
@@ -175,6 +173,10 @@ func TestVerifC06Replay(t *testing.T) {
 	dir := t.TempDir()
 	if rp := kit.Env("VERIF_REPLAY", ""); rp != "" {
 		c06ReplayFile(t, rp, dir)
+		return
+	}
+	if !c06WaitInput(kit.Env("VERIF_IN", "")) {
+		res.Note("aborted by the driver before any case was run")
 		return
 	}
 	var cases []*c06Case
